@@ -1,4 +1,5 @@
-\* C33, faithful model, schedule search: what was delivered since the last reset has no gap / restarts from the first log.
+\* Negative control (pre-9ae9635 model, JoinSubscriber = FALSE).  TLC MUST refute InvNoGapSinceResetE (after a reset the first
+\* log is never exported again); same use of the schedule as Replication_find_persisted.cfg.
 SPECIFICATION Spec
 CONSTANTS
   MaxLogs = 2
